@@ -896,7 +896,7 @@ class CGen:
 
 DRIVER_GCC = '''#include <unistd.h>
 extern unsigned char outbuf[512]; int entry(void);
-int main(void){ int n = entry(); if (write(1, outbuf, n) != n) return 99; return n & 0x7f; }
+int main(void){ int n = entry(); if (write(1, outbuf, n) != n) return 200; return n & 0x7f; }
 '''
 START_C = '''long bsp_syscall(long nr, long a, long b, long c);
 extern unsigned char outbuf[512]; int entry(void);
@@ -1110,7 +1110,7 @@ def native_compare(ctx, nat, src, label, pending, levels=(0, 1, 2, 's'), both_li
     """-> number of executions; reports mismatches"""
     from ppci.common import CompilerError
     ref = nat.reference(src)
-    if ref[0] == 'timeout' or not isinstance(ref[0], int) or ref[0] >= 99:
+    if ref[0] == 'timeout' or not isinstance(ref[0], int) or ref[0] > 127:
         return 0, 'reference failed'
     if nat.reference_opt(src) != ref:
         return 0, 'gcc -O0 and gcc -O2 disagree (generator bug: program not UB-free?)'
